@@ -227,8 +227,26 @@ func (cl *Cluster) RoundState(i int) string {
 }
 
 // ProposeBatch posts a signing proposal by participant `by`.
+// boardTasksJSON writes a task list the way a proposer's client may put it on the board: every
+// field spelled out (also an empty payload, also range fields next to a payload), independently of
+// how the implementation's own struct marshals. A nil payload is JSON null.
+func boardTasksJSON(tasks []requests.SigningTask) []byte {
+	var l []map[string]interface{}
+	for _, t := range tasks {
+		m := map[string]interface{}{"MessageID": t.MessageID, "File": t.File, "RangeStart": t.RangeStart, "RangeEnd": t.RangeEnd}
+		if t.Payload != nil {
+			m["Payload"] = t.Payload
+		} else {
+			m["Payload"] = nil
+		}
+		l = append(l, m)
+	}
+	bz, _ := json.Marshal(l)
+	return bz
+}
+
 func (cl *Cluster) ProposeBatch(by int, batch string, tasks []requests.SigningTask) {
-	data, _ := json.Marshal(requests.SigningBatchProposalStartRequest{BatchID: batch, ParticipantId: by, CreatedAt: time.Now(), SigningTasks: tasks})
+	data, _ := json.Marshal(map[string]interface{}{"BatchID": batch, "ParticipantId": by, "CreatedAt": time.Now(), "SigningTasks": json.RawMessage(boardTasksJSON(tasks))})
 	m := storage.Message{DkgRoundID: cl.Round, Event: "event_signing_start", Data: data, SenderAddr: cl.Users[by]}
 	m.Signature = ed25519.Sign(cl.Nodes[by].KP.Priv, data)
 	if err := cl.boardOf(by).Send(m); err != nil {
